@@ -82,7 +82,8 @@ def main():
         pid = p["id"]
         path = os.path.join(HERE, "mc", "props", pid.lower() + ".py")
         meta = CHECKS[pid]
-        if os.path.exists(path):
+        claimed = set(open(os.path.join(HERE, "tools", "claimed.txt")).read().split())
+        if os.path.exists(path) and pid in claimed:
             checks.append(
                 {
                     "property_id": pid,
